@@ -1,6 +1,9 @@
 (* C17 - the c-representation ranking function is a (Pareto-)minimal model of the base. *)
 From InfOCF Require Import Core Tol CInf Form Model CModel ThmC ThmPareto ThmPostInt ThmParetoEx.
 From InfOCFProps Require Import Ex.
+From InfOCF Require Import PyLib TieCrep.
+From InfOCFGen Require Import SrcCrep.
+From Coq Require Import ZArith.
 
 (* an impact vector solves the compiled CSP iff the ranking "sum of the impacts of the falsified conditionals" accepts every
    conditional of the base (C05); so whatever vector the optimiser returns from the CSP yields a c-representation *)
@@ -31,6 +34,16 @@ Print Assumptions C17_minimal_below_every_c_representation.
 Theorem C17_pareto_minimal_exists : forall n D P, part_strict n D = Some P -> exists e, pareto_check n D e = true.
 Proof. exact pareto_minimal_exists. Qed.
 Print Assumptions C17_pareto_minimal_exists.
+
+
+(* SOURCE TIE.  RandomMinCRepPreOCF.c_vec2ocf is GENERATED on every run from /repo's preocf.py (coq/gen/SrcCrep.v): for every
+   signature size, base, impact vector of the base's length and world of the signature it returns kappa_eta(w), the sum of
+   the impacts of the conditionals the world falsifies - the ranking the theorems above speak about. *)
+Theorem C17_source_rank_is_sum_of_impacts : forall n w, In w (worlds n) -> forall D (d:dict BinNums.Z cond) eta,
+  dict_values d = D -> length eta = length D ->
+  py_RandomMinCRepPreOCF_c_vec2ocf n d (map Z.of_nat eta) w = Return (Z.of_nat (ckappa D eta w)).
+Proof. exact tie_c_vec2ocf. Qed.
+Print Assumptions C17_source_rank_is_sum_of_impacts.
 
 Example birds_minimal : pareto_check 4 birds [1;2;2;1] = true /\ pareto_check 4 birds [1;2;2;2] = false
   /\ front_missing 4 birds 3 [[1;2;2;1]] = [].
